@@ -71,10 +71,10 @@ Section L.
   Qed.
 
   (* the client list only changes at position i, and the record there keeps its id *)
-  Lemma handle_input_ids fuel : forall st i ok acc st' evs,
-    handle_input expand_str ranged_sorted ranged_plain sorted fuel st i ok acc = Ok (st', evs) -> ids st' = ids st.
+  Lemma handle_input_ids fuel : forall st i acc st' evs,
+    handle_input expand_str ranged_sorted ranged_plain sorted fuel st i acc = Ok (st', evs) -> ids st' = ids st.
   Proof.
-    induction fuel as [|f IH]; intros st i ok acc st' evs; cbn [handle_input]; [intros H; now inversion H|].
+    induction fuel as [|f IH]; intros st i acc st' evs; cbn [handle_input]; [intros H; now inversion H|].
     destruct (nth_error (dm_clients st) i) as [x|] eqn:En; [|intros H; now inversion H].
     destruct (take_line [] (dc_from x)) as [[line rest]|]; [|intros H; now inversion H].
     destruct (parse_input _ _ _ _ _ _ _ _) as [[[cf' store'] c'] q] eqn:Ep.
@@ -82,7 +82,7 @@ Section L.
     match goal with |- match ?e with _ => _ end = _ -> _ => destruct e as [devs'| | | |]; try discriminate end.
     intros H. apply IH in H. rewrite H. unfold ids. cbn [dm_clients].
     apply (upd_nth_same cid _ i x); [exact En|].
-    unfold cid. destruct (cl_quit c' && negb (cl_quit (dc x)) && ok); cbn; exact Hid.
+    unfold cid. cbn. exact Hid.
   Qed.
 
   Lemma cli_one_ids st i ci st' evs dead :
@@ -115,17 +115,16 @@ Section L.
   Lemma accepts_app a b : accepts (a ++ b) = accepts a ++ accepts b. Proof. unfold accepts. now rewrite flat_map_app. Qed.
 
   (* events of the client layer other than close: none of them is a close or an accept *)
-  Lemma handle_input_evs fuel : forall st i ok acc st' evs,
-    handle_input expand_str ranged_sorted ranged_plain sorted fuel st i ok acc = Ok (st', evs) ->
+  Lemma handle_input_evs fuel : forall st i acc st' evs,
+    handle_input expand_str ranged_sorted ranged_plain sorted fuel st i acc = Ok (st', evs) ->
     closes evs = closes acc /\ accepts evs = accepts acc.
   Proof.
-    induction fuel as [|f IH]; intros st i ok acc st' evs; cbn [handle_input]; [intros H; inversion H; auto|].
+    induction fuel as [|f IH]; intros st i acc st' evs; cbn [handle_input]; [intros H; inversion H; auto|].
     destruct (nth_error (dm_clients st) i) as [x|]; [|intros H; inversion H; auto].
     destruct (take_line [] (dc_from x)) as [[line rest]|]; [|intros H; inversion H; auto].
     destruct (parse_input _ _ _ _ _ _ _ _) as [[[cf' store'] c'] q].
     match goal with |- match ?e with _ => _ end = _ -> _ => destruct e as [devs'| | | |]; try discriminate end.
-    intros H. apply IH in H. destruct H as [H1 H2]. rewrite H1, H2, closes_app, accepts_app.
-    match goal with |- context [closes (match ?l with _ => _ end)] => destruct l end; cbn; rewrite ?app_nil_r; auto.
+    intros H. apply IH in H. exact H.
   Qed.
 
   Lemma cli_one_evs st i ci st' evs dead :
@@ -223,10 +222,10 @@ Section L.
   Qed.
 
   (* the client-id sequence number only moves in accept *)
-  Lemma handle_input_seq fuel : forall st i ok acc st' evs,
-    handle_input expand_str ranged_sorted ranged_plain sorted fuel st i ok acc = Ok (st', evs) -> dm_seq st' = dm_seq st.
+  Lemma handle_input_seq fuel : forall st i acc st' evs,
+    handle_input expand_str ranged_sorted ranged_plain sorted fuel st i acc = Ok (st', evs) -> dm_seq st' = dm_seq st.
   Proof.
-    induction fuel as [|f IH]; intros st i ok acc st' evs; cbn [handle_input]; [intros H; now inversion H|].
+    induction fuel as [|f IH]; intros st i acc st' evs; cbn [handle_input]; [intros H; now inversion H|].
     destruct (nth_error (dm_clients st) i) as [x|]; [|intros H; now inversion H].
     destruct (take_line [] (dc_from x)) as [[line rest]|]; [|intros H; now inversion H].
     destruct (parse_input _ _ _ _ _ _ _ _) as [[[cf' store'] c'] q].
